@@ -453,6 +453,29 @@ theorem same_context_as_parser_model {nm : Tok} {o : TaskOpts} {ps : List Param}
   unfold Ctx.ofSpecsChecked at this
   exact foldChecked_eq_foldlM this
 
+/-! ## a context depends on the task's own signature only -/
+
+/-- `mkCtx` is a function of the task's own parameters and decorator options and of nothing else - no other task
+    of the namespace, no earlier generation - and even the name it is bound under (`docs.build`, `www.build`, an
+    alias) only labels the context: the same signature bound under another name builds as well and yields the same
+    arguments and the same flag, inverse-flag and positional tables. -/
+theorem context_depends_on_own_signature_only {nm nm' : Tok} {o : TaskOpts} {ps : List Param} {c : Ctx}
+    (h : mkCtx nm o ps = .ok c) :
+    ∃ c', mkCtx nm' o ps = .ok c' ∧ c'.args = c.args ∧ c'.flags = c.flags ∧ c'.inverse = c.inverse ∧
+      c'.positional = c.positional := by
+  have h1 := mkCtx_ok_iff.1 h
+  rcases ofSpecsChecked_name_irrelevant (nm' := some nm') (al' := []) h1.2.2 with ⟨c', hc', hs⟩
+  exact ⟨c', mkCtx_ok_iff.2 ⟨h1.1, h1.2.1, hc'⟩, hs.1.symm, hs.2.1.symm, hs.2.2.1.symm, hs.2.2.2.symm⟩
+
+/-- …and so is failure: a signature that is refused under one name is refused under every name. -/
+theorem refusal_depends_on_own_signature_only {nm nm' : Tok} {o : TaskOpts} {ps : List Param}
+    (h : (mkCtx nm o ps).toOption.isSome = false) : (mkCtx nm' o ps).toOption.isSome = false := by
+  cases h' : mkCtx nm' o ps with
+  | error e => rfl
+  | ok c' =>
+    rcases context_depends_on_own_signature_only (nm' := nm) h' with ⟨c, hc, _⟩
+    rw [hc] at h; cases h
+
 /-! ## non-vacuity: a signature exercising every rule, and what the theorems say about it -/
 
 /-- `@task(iterable=['my_list'], optional=['opt'], help={'foo-bar': …})
@@ -482,6 +505,15 @@ example : ((mkCtx "t".toList exOpts exParams).toOption.map Ctx.asKwargs) =
           ("color".toList, .b true), ("quiet".toList, .b false), ("opt".toList, .none)] := by decide
 example : ((mkCtx "t".toList exOpts exParams).toOption.map (fun c => assoc? "--foo-bar".toList c.flags)) = some (some 2) := by
   decide
+/-- keyword-only parameters: `def deploy(c, host, retries=3, *, target)` - `target` lacks a default *after* a
+    defaulted parameter and is positional all the same, in declaration order -/
+example : ((mkCtx "deploy".toList {} [⟨"host".toList, .empty⟩, ⟨"retries".toList, .int 3⟩, ⟨"target".toList, .empty⟩]).toOption.map
+    (fun c => (c.positionalNames, c.asKwargs.map Prod.fst))) =
+    some (["host".toList, "target".toList], ["host".toList, "target".toList, "retries".toList]) := by decide
+/-- namesakes: two tasks called `build` with different signatures get different contexts, whatever they are bound as -/
+example : ((mkCtx "docs.build".toList {} [⟨"fmt".toList, .str "html".toList⟩]).toOption.map Ctx.flagNames,
+           (mkCtx "www.build".toList {} [⟨"minify".toList, .bool false⟩]).toOption.map Ctx.flagNames) =
+    (some ["--fmt".toList, "-f".toList], some ["--minify".toList, "-m".toList]) := by decide
 /-- the error side of `built_iff_no_clash` is inhabited too -/
 example : ¬ NoInverseCollision {} [⟨"color".toList, .bool true⟩, ⟨"no_color".toList, .bool false⟩] := by
   intro h
